@@ -302,4 +302,10 @@ def run_check(fn):
     except HarnessError as e:
         print(f"HARNESS-ERROR: {e}", file=sys.stderr)
         code = 2
+    except Exception:  # noqa: BLE001  a bug in the machinery is never a VIOLATION
+        import traceback
+
+        traceback.print_exc()
+        print("HARNESS-ERROR: unexpected exception in the check", file=sys.stderr)
+        code = 2
     sys.exit(code)
